@@ -15,7 +15,7 @@ DESCRIPTION = {
              "max_retry_delay while any transport has budget; start()'s result completes exactly once - success on normal leave / main finished / stop(), error when main fails or "
              "all transports are exhausted - and never earlier; connect/join/ready/leave/disconnect listeners fire for every session created.  Non-trivial = >=2 failed attempts "
              "followed by a join or exhaustion, or stop() during a delay/connect; distinct by (config, outcome sequence, stop point)."),
-    "assumptions": ["exact delay values (jitter is random by design) are not asserted, only the bounds", "time advances only through the harness; unbounded liveness is checked as bounded liveness"],
+    "assumptions": ["arg-less random.seed() calls made by WebSocket factories are routed to a case-derived seed inside the worker so that the jitter is a function of the case", "exact delay values (jitter is random by design) are not asserted, only the bounds", "time advances only through the harness; unbounded liveness is checked as bounded liveness"],
 }
 
 OUTCOMES = ["refused", "refused", "hs-rejected", "abort", "lost-unclean", "lost-clean", "goodbye-shutdown", "goodbye-normal", "main-returns", "main-raises"]
